@@ -8,6 +8,7 @@ import (
 	"bytes"
 	"encoding/json"
 	"fmt"
+	"math"
 	"math/rand"
 	"os"
 	"path/filepath"
@@ -47,6 +48,46 @@ type diskRec struct {
 
 type crashSentinel struct{}
 
+// Order-preserving embeddings of the abstract heights and rounds of a request sequence into the concrete 64 / 32 bit
+// ranges: the signer's decisions depend only on the order of (height, round, step), so every embedding must give the
+// same answers - including those that put the values next to 2^29, 2^31 and the ends of the integer types.
+type embedding struct {
+	name  string
+	hOff  int64 // concrete height = abstract + hOff
+	rOff  int32 // concrete round  = abstract + rOff for abstract >= 1 (round 0 stays 0 when rZero)
+	rZero bool
+}
+
+var embeddings = []embedding{
+	{"identity", 0, 0, false},
+	{"rounds next to 2^29", 0, 1<<29 - 2, true},
+	{"rounds at the top of int32, heights across 2^31", 1<<31 - 3, math.MaxInt32 - 64, false},
+	{"heights next to 2^62, rounds next to 2^30", 1 << 62, 1<<30 - 1, true},
+}
+
+func (e embedding) h(a int64) int64 { return a + e.hOff }
+func (e embedding) r(a int32) int32 {
+	if e.rZero && a == 0 {
+		return 0
+	}
+	if a > 60 {
+		a = 60
+	}
+	return a + e.rOff
+}
+func (e embedding) hInv(c int64) int64 {
+	if c <= 0 {
+		return c
+	}
+	return c - e.hOff
+}
+func (e embedding) rInv(c int32) int32 {
+	if c == 0 { // round 0 of the embedding, or the fresh state file
+		return 0
+	}
+	return c - e.rOff
+}
+
 func blockID(i int) tmproto.BlockID {
 	if i == 0 {
 		return tmproto.BlockID{}
@@ -77,6 +118,7 @@ type runner struct {
 	armed   bool
 	keyFile string
 	stFile  string
+	emb     embedding
 }
 
 func (r *runner) readDisk() diskRec {
@@ -98,7 +140,7 @@ func (r *runner) readDisk() diskRec {
 			return diskRec{H: -1}
 		}
 	}
-	d := diskRec{H: st.Height, R: st.Round, S: int(st.Step)}
+	d := diskRec{H: r.emb.hInv(st.Height), R: r.emb.rInv(st.Round), S: int(st.Step)}
 	if st.SignBytes != "" {
 		d.Signed = true
 		sb := make([]byte, len(st.SignBytes)/2)
@@ -153,7 +195,7 @@ func (r *runner) sign(st Step) map[string]any {
 		r.armed = st.Crash
 		defer func() { r.armed = false }()
 		if st.S == 1 {
-			p := &tmproto.Proposal{Type: tmproto.ProposalType, Height: st.H, Round: st.R, PolRound: -1, BlockID: blockID(st.Bid), Timestamp: ts}
+			p := &tmproto.Proposal{Type: tmproto.ProposalType, Height: r.emb.h(st.H), Round: r.emb.r(st.R), PolRound: -1, BlockID: blockID(st.Bid), Timestamp: ts}
 			defer func() { sig, rts = p.Signature, p.Timestamp }()
 			signBytes = func() []byte { return tmtypes.ProposalSignBytes(chainID, p) }
 			err = r.pv.SignProposal(chainID, p)
@@ -163,7 +205,7 @@ func (r *runner) sign(st Step) map[string]any {
 				typ = tmproto.PrecommitType
 			}
 			addr := r.pv.GetAddress()
-			v := &tmproto.Vote{Type: typ, Height: st.H, Round: st.R, BlockID: blockID(st.Bid), Timestamp: ts, ValidatorAddress: addr, ValidatorIndex: 0}
+			v := &tmproto.Vote{Type: typ, Height: r.emb.h(st.H), Round: r.emb.r(st.R), BlockID: blockID(st.Bid), Timestamp: ts, ValidatorAddress: addr, ValidatorIndex: 0}
 			defer func() { sig, rts = v.Signature, v.Timestamp }()
 			signBytes = func() []byte { return tmtypes.VoteSignBytes(chainID, v) }
 			err = r.pv.SignVote(chainID, v)
@@ -213,11 +255,12 @@ func ExecAll(seqs [][]Step, tmp string, w *bufio.Writer) (int, error) {
 		if err != nil {
 			return n, err
 		}
-		r := &runner{dir: dir, sigTok: map[string]int{}, keyFile: filepath.Join(dir, "key.json"), stFile: filepath.Join(dir, "state.json")}
+		r := &runner{dir: dir, sigTok: map[string]int{}, keyFile: filepath.Join(dir, "key.json"), stFile: filepath.Join(dir, "state.json"),
+			emb: embeddings[i%len(embeddings)]}
 		cur = r
 		r.pv = rcrypto.GenSFilePV(r.keyFile, r.stFile)
 		r.pv.SaveWith(nil)
-		_ = enc.Encode(map[string]any{"ev": "Reset", "i": i, "disk": r.readDisk()})
+		_ = enc.Encode(map[string]any{"ev": "Reset", "i": i, "disk": r.readDisk(), "embedding": r.emb.name})
 		for _, st := range seq {
 			var ev map[string]any
 			if st.Ev == "Reload" || r.pv == nil {
